@@ -122,6 +122,9 @@ def gen_case(g):
         big = numpy.zeros((ncross, 2 * npar), dtype="int64"); big[:, ::2] = xc; xc = big[:, ::2]      # non-contiguous view
     elif lay == 3:
         xc = xc.astype("int32")
+    elif lay == 4 and g.random() < 0.7:
+        # every integer dtype is a valid index array; narrow ones must not leak into the library's own index arithmetic
+        xc = xc.astype(str(g.choice(["int8", "uint8", "int16", "uint16", "uint32"])))
 
     def counts():
         r = g.random()
@@ -132,7 +135,21 @@ def gen_case(g):
         a = g.integers(0, 3, ncross).astype("int64")
         return a, "array-with-zero"
     nmating, mcls = counts(); nprogeny, pcls = counts()
-    tot = int(numpy.sum(numpy.broadcast_to(nmating, (ncross,)) * numpy.broadcast_to(nprogeny, (ncross,))))
+    if g.random() < 0.03:
+        # families whose running totals cross the limits of the 8-bit types (127 / 255 hybrids or progeny in one call), mostly
+        # asked for through a cross table of such a narrow dtype
+        nmating = g.integers(30, 131, ncross).astype("int64"); nprogeny = int(g.integers(1, 3)); mcls, pcls = "array-large", "scalar"
+        r8 = g.random()
+        if r8 < 0.7:
+            xc = numpy.ascontiguousarray(xc).astype("int8" if r8 < 0.3 else "uint8" if r8 < 0.6 else "int16")
+    if g.random() < 0.15:
+        # count arrays in a narrower integer dtype (values themselves fit)
+        dtc = str(g.choice(["int16", "uint16", "int32", "uint32", "uint8"]))
+        if isinstance(nmating, numpy.ndarray) and nmating.max() < 200:
+            nmating = nmating.astype(dtc)
+        if isinstance(nprogeny, numpy.ndarray):
+            nprogeny = nprogeny.astype(dtc)
+    tot = int(numpy.sum(numpy.broadcast_to(nmating, (ncross,)).astype("int64") * numpy.broadcast_to(nprogeny, (ncross,)).astype("int64")))
     nself = int(g.choice([0, 0, 0, 1, 1, 2, 3, 4]))
     r = int(g.integers(10)); seed = int(g.integers(2 ** 31))
     if r < 5:
@@ -286,6 +303,12 @@ def one_case(ctx, c):
     LOG.install()
     name = k["name"]
     icls = "%s/%s%s" % ("nself>0" if k["nself"] else "nself=0", k["rcls"], "" if k["grouped"] else "/ungrouped parent")
+    if k["xc"].dtype.itemsize < 4 or k["xc"].dtype.kind == "u":
+        icls += "/narrow or unsigned cross-table dtype"
+    if k["tot"] > 127:
+        icls += "/more than 127 progeny"
+        ctx.sumnote("calls producing more than 127 progeny")
+    ctx.sumnote("cross tables of dtype %s" % k["xc"].dtype)
     coords = [c, "mate"]
     pg = k["pg"]
     ctx.case("%s/%s/%s/xo=%s/counts=%s,%s/%s" % (name, k["codes"], k["rcls"], k["xomode"], k["cls"][0], k["cls"][1], "grouped" if k["grouped"] else "ungrouped parent"),
